@@ -24,6 +24,7 @@ from collections import Counter
 VERIF_DIR = os.path.dirname(os.path.dirname(os.path.abspath(__file__)))
 REPO = os.path.realpath(os.environ.get("VERIF_REPO", "/repo"))
 NSHARDS = int(os.environ.get("VERIF_SHARDS", "16"))
+LAST_VERDICT = {}
 # where evidence/ and replays/ are written; only the mutation runner points this elsewhere
 OUT_DIR = os.environ.get("VERIF_OUT", VERIF_DIR)
 
@@ -37,6 +38,11 @@ class CaseFailed(Exception):
 
 class HarnessError(Exception):
     pass
+
+
+class BuildAborted(Exception):
+    """A library call that is NOT the subject of the property under test raised while a cross-structure check was building a
+    state (soft mode): the case is abandoned and counted, never reported - the property that owns that call has its own check."""
 
 
 def import_repo():
@@ -89,6 +95,7 @@ class Ctx:
     def __init__(self, prop, tier="quick", guards=(), want_trace=True, careful=False):
         self.prop = prop
         self.careful = careful  # replay / shrinking: drivers use their deterministic (slower) watchdogs
+        self.soft_noexc = False  # True: failures of "<ID>.no_exception" abandon the case instead of being reported
         self.tier = tier
         self.guards = frozenset(guards)
         self.features = Counter()
@@ -104,11 +111,15 @@ class Ctx:
     def check(self, oracle, cond, msg=""):
         self.oracle_evals[oracle] += 1
         if not cond:
+            if self.soft_noexc and oracle.endswith(".no_exception"):
+                raise BuildAborted(msg() if callable(msg) else msg)
             raise CaseFailed(oracle, msg() if callable(msg) else msg)
         return True
 
     def fail(self, oracle, msg=""):
         self.oracle_evals[oracle] += 1
+        if self.soft_noexc and oracle.endswith(".no_exception"):
+            raise BuildAborted(msg)
         raise CaseFailed(oracle, msg)
 
     def lib(self, oracle, fn, *args, allow=(), **kw):
@@ -171,11 +182,22 @@ def run_one(mod, case, tier="quick", guards=(), want_trace=True, careful=False):
         mod.run_case(copy.deepcopy(case), ctx)
     except CaseFailed as e:
         failure = (e.oracle, e.msg)
+    except BuildAborted:
+        ctx.features["state_build_aborted_by_unrelated_exception"] += 1
+        ctx.nontrivial = False
     except RecursionError as e:
-        failure = (mod.ID + ".no_exception", "unexpected " + exc_brief(e))
+        if ctx.soft_noexc:
+            ctx.features["state_build_aborted_by_unrelated_exception"] += 1
+            ctx.nontrivial = False
+        else:
+            failure = (mod.ID + ".no_exception", "unexpected " + exc_brief(e))
     except Exception as e:  # noqa
         if innermost_is_library(e):
-            failure = (mod.ID + ".no_exception", "unexpected " + exc_brief(e))
+            if ctx.soft_noexc:
+                ctx.features["state_build_aborted_by_unrelated_exception"] += 1
+                ctx.nontrivial = False
+            else:
+                failure = (mod.ID + ".no_exception", "unexpected " + exc_brief(e))
         else:
             raise
     finally:
@@ -538,6 +560,7 @@ def run_check(prop_id, tier, seed, replay=None):
     wall = time.time() - t0
     write_evidence(mod, tier, seed, total, violations, known_lines, guards, regress_n, wall,
                    extra_info)
+    LAST_VERDICT["violations"] = len(violations)
     print(f"{prop_id} tier={tier} seed={seed}: {total.evaluations} cases, "
           f"{len(total.nt_digests)} distinct non-trivial, regress={regress_n}, "
           f"oracle evaluations={sum(total.oracle_evals.values())}, wall={wall:.1f}s")
